@@ -1047,6 +1047,24 @@ def code(s):
     return n
 
 
+def encode_table(facts):
+    """the table as the token list of the driver's `c10` entries (lean/BFL/Driver/Race.lean)"""
+    F, M, A, C = facts["fields"], facts["methods"], facts["accesses"], facts["calls"]
+    fk = {"atomic": 0, "plain": 1, "mutex": 2, "condvar": 3, "other": 4}
+    ak = {"r": 0, "w": 1, "rw": 2}
+    ck = {"direct": 0, "virtual": 1, "ref": 2, "spawn": 3}
+    t = [len(F), len(M), len(A), len(C)]
+    for f in F:
+        t += [code(f["cls"]), code(f["name"]), fk[f["kind"]]]
+    for m in M:
+        t += [code(m["name2"]), m["ovl"], int(m["virtual"]), int(m["body"])]
+    for a in A:
+        t += [a["meth"], a["field"], ak[a["acc"]], int(a["self"]), a["line"], len(a["locks"])] + list(a["locks"])
+    for c in C:
+        t += [c["caller"], c["callee"], ck[c["kind"]]]
+    return " ".join(str(x) for x in t)
+
+
 def lean_ident(s):
     return re.sub(r"[^A-Za-z0-9_]", "_", s)
 
